@@ -27,6 +27,34 @@ REGRESS = [("JavaScript", "function f() {\n  x = 1\n  y = 2;\n}\n", [("comment",
            ("TypeScript", "function f() {\n  x = 1\n}\n", [("trail", 2, " // t")])]
 
 
+KF2_WITNESS = ("C", "int fn1(int a,\n    int b) {\n  x = 1;\n}\n", [("comment", 1, "  /* int g() { */")])
+
+
+def code_stream(lang, code):
+    """the Pygments lexer's own sequence of non-comment, non-whitespace (type, value) tokens"""
+    return [(str(tt), v) for (_, tt, v) in sr.raw_tokens(lang, code)[0] if sr.kind_of(tt) not in (5, 6)]
+
+
+def lexer_changed(lang, code, variant):
+    """did the insertion change the LEXER's code-token stream (not just Code Limit's view of it)?"""
+    return code_stream(lang, code) != code_stream(lang, variant)
+
+
+def matches_known(k, failure):
+    """KF2: the Pygments C/C++ lexers tokenise a whole function header with one regular expression
+    (`[^;]*?` up to the first ')' and `[^;{]*` up to the first '{'); a comment containing one of
+    these delimiters inside a multi-line header is therefore not lexed as a comment. Signature:
+    language C or C++, the lexer's own code-token stream differs between original and variant."""
+    return k.get("id") == "KF2" and failure.get("kind") == "lexer" and failure["input"]["language"] in ("C", "C++")
+
+
+def replay_known(k):
+    lang, code, edits = KF2_WITNESS
+    v = apply_edits(code, edits)
+    o = sr.decode_scan(sr.real_scan(lang, code)); d = sr.decode_scan(sr.real_scan(lang, v))
+    return bool(o and d and d[0] != expected_after(o[0], edits) and lexer_changed(lang, code, v))
+
+
 def safe_points(lang, code):
     """-> (boundaries, trail_lines): k in boundaries = a line may be inserted after line k
     (0 = before the first line); l in trail_lines = a trailing comment / blanks may be appended to line l"""
@@ -172,7 +200,8 @@ def correspond(ctx):
         want = expected_after(o[0], edits)
         got = d[0] if d else r
         if got != want:
-            fails.append({"input": inp, "observed": got if d is None else [x for x in got if x not in want][:3], "required": [x for x in want if d is None or x not in got][:3]})
+            fails.append({"input": inp, "observed": got if d is None else [x for x in got if x not in want][:3], "required": [x for x in want if d is None or x not in got][:3],
+                          "kind": "lexer" if lexer_changed(lang, code, v) else "pipeline"})
         if o[0]:
             nontrivial.add((lang, v))
         for e in edits:
@@ -205,7 +234,8 @@ def search(ctx, hints):
             continue
         want = expected_after(o[0], edits)
         if (d[0] if d else r) != want:
-            fails.append({"input": {"language": lang, "code": code, "edits": [list(e) for e in edits]}, "observed": r[:200], "required": str(want)[:200]})
+            fails.append({"input": {"language": lang, "code": code, "edits": [list(e) for e in edits]}, "observed": r[:200], "required": str(want)[:200],
+                          "kind": "lexer" if lexer_changed(lang, code, v) else "pipeline"})
     fails.sort(key=lambda f: len(f["input"]["code"]) + 50 * len(f["input"]["edits"]))
     return fails[:8]
 
